@@ -66,7 +66,7 @@ NOT_APPLICABLE = {
 
 # properties whose check is planned in DESIGN.md but not built yet in this revision
 PENDING = {k: "check not built yet in this revision of /verif (planned, DESIGN.md §4); not claimed until it exists"
-           for k in ["C01", "C02", "C03", "C04", "C05", "C07", "C08", "C10", "C11", "C12", "C14", "C15", "C16",
+           for k in ["C03", "C04", "C05", "C07", "C08", "C10", "C11", "C12", "C14", "C15", "C16",
                      "C17", "C18", "C19", "C20"]}
 
 
@@ -100,4 +100,43 @@ _add(Prop(
           "(Kani's pointer checks) never touches memory outside the backing slice. Because every reachable state is "
           "covered as a pre-state, histories of any length are covered for these capacities - which the unit tests' "
           "single start offset (0) cannot do.",
+))
+
+
+_add(Prop(
+    "C01", "c01_int_conv", "c01",
+    functions=["dasp_sample::conv::{i8,i16,i24,i32,i48,i64,u8,u16,u24,u32,u48,u64}::to_{i8,..,u64} (all 132 "
+               "integer->integer functions)", "I24/U24/I48/U48::{new, new_unchecked, inner}",
+               "Sample::{to_sample, from_sample}, FromSample::from_sample_, ToSample::to_sample_ for each of the 132 pairs"],
+    bounds="none on values: every in-range value of the source format of every ordered pair (full 2^64 space for "
+           "i64/u64); the code is loop-free so no unwinding bound applies",
+    outside="out-of-range I24/U24/I48/U48 values built with new_unchecked (the property quantifies over in-range values)",
+    assumptions=["custom-width source values are obtained through the checked constructor new() (in-range)"],
+    rules=[],
+    design_ref="DESIGN.md §4 C01",
+    claim="For each of the 132 ordered pairs the solver shows, for EVERY in-range source value, that the result's signed "
+          "amplitude equals amp(s)*2^(bd-bs) (arithmetic floor when narrowing) in 128-bit reference arithmetic, that the "
+          "result is in range (what new_unchecked relies on), that trait dispatch reaches the same function, that order, "
+          "equilibrium and extremes are preserved, that narrowing undoes widening, and (via_* harnesses) that converting "
+          "through every intermediate format at least as wide as the narrower endpoint agrees with the direct conversion. "
+          "The unit tests sample 3-4 values per pair.",
+))
+
+
+_add(Prop(
+    "C02", "c02_float_conv", "c02",
+    functions=["dasp_sample::conv::{i8..u64}::{to_f32, to_f64} (24)", "dasp_sample::conv::{f32,f64}::to_{i8..u64} (24)",
+               "conv::f32::to_f64, conv::f64::to_f32", "Sample::{to_sample, from_sample, to_float_sample} dispatch"],
+    bounds="none on values: every value of each integer format; every f32/f64 with -1.0 <= s < 1.0 (the documented "
+           "domain) for float->int; every f32 / every f64 bit pattern for float<->float; loop-free",
+    outside="float inputs outside [-1.0, 1.0) and NaN for float->int (documented as overflowing)",
+    assumptions=["float->int inputs are assumed to satisfy -1.0 <= s < 1.0"],
+    design_ref="DESIGN.md §4 C02",
+    claim="int->float: for every source value the result lies in [-1,1] and, scaled back by the exact power of two, "
+          "equals an integer-only round-to-nearest-even reference of the signed amplitude to 24/53 bits (hence exact "
+          "when the width fits the mantissa), order-preserving, equilibrium -> 0.0. float->int: for every float in "
+          "[-1,1) the result equals a bit-decoded truncation reference, is in range, order-preserving, 0.0 -> "
+          "equilibrium, -1.0 -> MIN, and inverts int->float wherever that was exact. f32->f64 is shown exact by "
+          "canonical (sign, odd mantissa, exponent) equality; f64->f32 is shown to be the nearest f32, ties to even, "
+          "overflowing only beyond the rounding threshold.",
 ))
